@@ -81,6 +81,8 @@ void World::build_common()
 		S.faults.p_drop = f.getd("p_drop"); S.faults.p_dup = f.getd("p_dup"); S.faults.p_delay = f.getd("p_delay");
 		S.faults.p_trunc = f.getd("p_trunc"); S.faults.p_flip = f.getd("p_flip");
 		S.faults.max_delay = (uint64_t)f.geti("max_delay_us");
+		S.faults.p_redeliv = f.getd("p_redeliv"); S.faults.p_rd_newid = f.getd("p_rd_newid"); S.faults.p_rd_recase = f.getd("p_rd_recase");
+		S.faults.p_rd_altsrc = f.getd("p_rd_altsrc"); S.faults.rd_max_delay = (uint64_t)f.geti("rd_max_delay_us");
 	}
 	// explicit fates
 	const J &fl = plan["fates"];
@@ -88,14 +90,16 @@ void World::build_common()
 		S.explicit_fates = plan.getb("explicit_fates", true);
 		for (auto &e : fl.a) {
 			// stream is identified by host names so that it survives re-numbering
-			Host *sh = S.host_by_name(e.gets("from")), *dh = S.host_by_name(e.gets("to"));
-			int shi = sh ? sh->id : (int)e.geti("from_id", -1), dhi = dh ? dh->id : (int)e.geti("to_id", -1);
-			int st = S.stream_of(shi, dhi);
 			Fate ft;
 			ft.drop = e.getb("drop"); ft.dup = (int)e.geti("dup"); ft.extra_delay = (uint64_t)e.geti("delay_us");
 			ft.dup_delay = (uint64_t)e.geti("dup_delay_us"); ft.trunc = (int)e.geti("trunc", -1); ft.flipbit = (int)e.geti("flip", -1);
 			if (e.has("replace_hex")) { ft.has_replace = true; ft.replace = unhex(e.gets("replace_hex")); }
-			S.fates[{st, (uint64_t)e.geti("n")}] = ft;
+			if (e.has("redeliv")) for (auto &x : e["redeliv"].a) {
+				Redeliv rd; rd.delay = (uint64_t)x.geti("delay_us"); rd.idxor = (uint16_t)x.geti("idxor"); rd.recase = (uint64_t)x.geti("recase"); rd.altsrc = x.getb("altsrc");
+				ft.redeliv.push_back(rd);
+			}
+			std::string key = (e.has("from") ? e.gets("from") : std::string("#") + std::to_string(e.geti("from_id", -1))) + ">" + (e.has("to") ? e.gets("to") : std::string("#") + std::to_string(e.geti("to_id", -1))) + "#" + std::to_string(e.geti("n"));
+			S.named_fates[key] = ft;
 		}
 	}
 	add(mk_world_tracker(this));
@@ -193,9 +197,35 @@ void World::schedule_ops()
 	}
 }
 
+static std::string describe(World *w, const Bytes &b)
+{
+	char o[400];
+	if (b.size() >= 4 && b[0] == 0x10 && b[1] == 0xd1 && b[2] == 0x9e) { snprintf(o, sizeof o, "RAW cmd=%d uid=%d", b[3] >> 4, b[3] & 15); return o; }
+	DnsMsg m;
+	std::string e = dns_parse_strict(b, m);
+	if (!e.empty()) return "UNPARSABLE(" + e + ") " + hexs(b, 16);
+	std::string qn = m.qd.empty() ? "" : m.qd[0].name.dotted();
+	UpQuery u; bool tun = !qn.empty() && decode_upquery(qn, w->domain, u);
+	std::string s;
+	snprintf(o, sizeof o, "id=%04x %s t=%d ", m.id, m.qr ? "ANS" : "QRY", m.qd.empty() ? -1 : m.qd[0].type); s = o;
+	if (tun && u.cmd == 'd') { snprintf(o, sizeof o, "DATA u%d up=%d/%d ackdn=%d/%d last=%d cmc=%c n=%zu ", u.userid, u.up_seq, u.up_frag, u.dn_seq, u.dn_frag, u.last, u.cmc, u.enc_payload.size()); s += o; }
+	else if (tun && u.cmd == 'p' && u.b32.size() >= 4) { snprintf(o, sizeof o, "PING u%d ackdn=%d/%d cmc=%02x%02x ", u.b32[0], (u.b32[1] >> 4) & 7, u.b32[1] & 15, u.b32[2], u.b32[3]); s += o; }
+	else if (tun) { snprintf(o, sizeof o, "CMD %c ", u.cmd); s += o; }
+	else s += "name=" + qn.substr(0, 40) + " ";
+	if (m.qr) {
+		Bytes pl;
+		if (m.rcode) { snprintf(o, sizeof o, "rcode=%d", m.rcode); s += o; }
+		else if (!answer_payload(m, pl)) s += "no-payload";
+		else if (tun && (u.cmd == 'd' || u.cmd == 'p') && pl.size() >= 2 && (pl[0] & 0x80)) { snprintf(o, sizeof o, "-> ackup=%d/%d dn=%d/%d last=%d data=%zu", (pl[0] >> 4) & 7, pl[0] & 15, (pl[1] >> 5) & 7, (pl[1] >> 1) & 15, pl[1] & 1, pl.size() - 2); s += o; }
+		else { std::string t(pl.begin(), pl.begin() + std::min<size_t>(pl.size(), 24)); for (auto &c : t) if (c < 32 || c > 126) c = '.'; s += "-> '" + t + "' (" + std::to_string(pl.size()) + ")"; }
+	}
+	return s;
+}
+
 void World::run()
 {
 	g_sim = &S;
+	if (S.trace) { World *self = this; S.trace_decode = [self](const Bytes &b) { return describe(self, b); }; }
 	schedule_ops();
 	S.run();
 	g_sim = nullptr;
@@ -245,6 +275,11 @@ J World::fate_json(const std::pair<int, uint64_t> &key, const Fate &f)
 	if (f.trunc >= 0) o.set("trunc", f.trunc);
 	if (f.flipbit >= 0) o.set("flip", f.flipbit);
 	if (f.has_replace) o.set("replace_hex", hexs(f.replace));
+	if (!f.redeliv.empty()) {
+		J a = J::arr();
+		for (auto &r : f.redeliv) { J x = J::obj(); x.set("delay_us", (long long)r.delay); if (r.idxor) x.set("idxor", (int)r.idxor); if (r.recase) x.set("recase", (long long)r.recase); if (r.altsrc) x.set("altsrc", true); a.push(x); }
+		o.set("redeliv", a);
+	}
 	return o;
 }
 
